@@ -6,9 +6,11 @@ EXPLANATION = (
     "unknown '@' command -> UnsupportedCommand, no '@' -> File(whole line); no lossy conversion reaches a payload; "
     "D2 Plist::from_bytes produces entries only by PlistEntry::from_bytes(&bytes[s..e])? for each recorded (s,e), in recording order; "
     "D3 the guards of both line-recording sites compare the first-non-blank cursor with the line end without a net offset (difference-bound normal form k = 0) and agree with each other; "
+    "D3-TRANSFER the scan loop's per-byte transfer table by role: newline -> line start and cursor := idx+1, flag := true; leading blank -> cursor += 1; any other byte -> flag := false; the line start never moves inside a line; all start at 0/true "
+    "(so the invariant 'start = 1 + previous newline, cursor = start + leading blanks, flag <=> only blanks so far' is inductive and the recorded ranges are the exact non-blank lines); "
     "D4 blank-ness and argument stripping are decided on bytes (no u8-as-char cast into a Unicode char predicate)")
 NOT_DECIDED = [
-    "that the scanner's (s,e) are the exact line bounds for every input (index arithmetic beyond D3)",
+    "the induction itself (invariant + D3-TRANSFER + D3-LINE-GUARD => exact bounds) is a pen-and-paper step recorded in DESIGN.md, not re-proved per run; Enumerate yields consecutive indices from 0 (std)",
     "slice / OsStr / String::from_utf8 semantics (std)",
 ]
 CONFIG_SENSITIVE = False
@@ -18,6 +20,129 @@ EFB = "plist::PlistEntry::from_bytes"
 PFB = "plist::Plist::from_bytes"
 UNICODE_PREDICATES = ("char>::is_whitespace", "char>::is_alphabetic", "char>::is_numeric", "char>::is_alphanumeric",
                       "char>::is_lowercase", "char>::is_uppercase", "char>::is_control")
+
+
+def scan_transfer(ctx, body, paths, guards):
+    """Per-iteration transfer function of Plist::from_bytes' scan loop, by role.
+    With it the loop invariant (start = 1 + position of the previous newline; cursor = start + number of leading blank bytes seen, = idx while
+    the flag is still set; flag set <=> only blank bytes since start) is inductive, and with D3-LINE-GUARD (k = 0) a range is recorded exactly
+    for the lines that contain a non-blank byte, with the exact bounds [start, newline) / [start, len)."""
+    R = "D3-TRANSFER"
+    inloop = [(bb, g) for bb, g in guards.items() if body.in_any_loop(bb)]
+    atend = [(bb, g) for bb, g in guards.items() if not body.in_any_loop(bb)]
+    if len(inloop) != 1 or len(atend) != 1:
+        ctx.violation(R, PFB, "sites", "expected one in-loop and one end-of-input recording site, found %d and %d" % (len(inloop), len(atend)), fn_span(body))
+        return
+    (ibb, (S, IDX, iatoms, ie)), (ebb, (S2, E2, eatoms, ee)) = inloop[0], atend[0]
+
+    def hl(t):
+        return t[1] if isinstance(t, tuple) and t and t[0] == "havoc" else None
+    start = hl(S)
+    ok = start is not None and hl(S2) == start
+    ctx.check(ok, R, PFB, "start-role", "both sites record (start, ..) with the same line-start variable",
+              "the two recording sites do not use one line-start variable (%s vs %s)" % (term_str(S), term_str(S2)), fn_span(body))
+    ctx.check(is_call(strip_refs(E2), "[T]>::len") and strip_refs(call_args(strip_refs(E2))[0]) == ("param", 1), R, PFB, "end-of-input-bound", "(start, bytes.len())",
+              "the end-of-input site records %s as the line end, expected bytes.len()" % term_str(E2), body.span_of(ebb))
+    if not ok:
+        return
+    il = {hl(x) for (x, _, _) in iatoms} - {None}
+    el = {hl(x) for (x, _, _) in eatoms} - {None}
+    cursor = (il & el) - {start}
+    aliases = (il | el) - cursor
+    ctx.check(len(cursor) == 1, R, PFB, "cursor-role", "one first-non-blank cursor tested at both sites", "first-non-blank cursor not identified: %s" % sorted(cursor), fn_span(body))
+    if len(cursor) != 1:
+        return
+    cur = next(iter(cursor))
+    header = next((h for h, blks in body.loops.items() if ibb in blks), None)
+    backs = [p for p in paths if p.end[0] == "back" and p.end[1] == header]
+    ctx.floor(R, PFB, "scan-loop back-edge paths", len(backs), 6)
+    # the byte under the cursor: the .1 sibling of the enumerate item whose .0 is the index
+    item = IDX[1] if isinstance(IDX, tuple) and IDX[0] == "field" and IDX[2] == 0 else None
+    ctx.check(item is not None and bool(find_calls(item, "Enumerate<I> as std::iter::Iterator>::next")) and
+              bool(find_calls(item, "[T]>::iter")) and mentions(item, lambda s: s == ("param", 1)), R, PFB, "index-role",
+              "the line end recorded in the loop is the enumerate() index over bytes.iter()",
+              "the in-loop line end %s is not the position of the current byte of `bytes`" % term_str(IDX), body.span_of(ibb))
+    if item is None:
+        return
+
+    def is_byte(t):
+        t = strip_refs(t)
+        while isinstance(t, tuple) and t and t[0] == "deref":
+            t = strip_refs(t[1])
+        return isinstance(t, tuple) and t and t[0] == "field" and t[2] == 1 and t[1] == item
+
+    def unchanged(p, l):
+        v = p.env.get(l)
+        return v is None or (isinstance(v, tuple) and v[0] == "havoc" and v[1] == l)
+
+    def idx_plus_1(v):
+        return isinstance(v, tuple) and v[0] == "binop" and v[1] == "Add" and v[2] == IDX and const_int(v[3]) == 1
+
+    # initial values
+    for l in sorted(aliases | cursor):
+        init = S[3] if l == start else next((x[3] for (x, _, _) in iatoms + eatoms if hl(x) == l), None)
+        ctx.check(const_int(init) == 0, R, PFB, "init:%s" % body.local_name(l), "starts at 0", "%s starts at %s, expected 0" % (body.local_name(l), term_str(init)), fn_span(body), nontrivial=False)
+    flags = set()
+    for p in backs:
+        for c in p.conds():
+            if isinstance(c.term, tuple) and c.term[0] == "havoc" and body.f["locals"][c.term[1]]["ty"] == "bool":
+                flags.add(c.term[1])
+                ctx.check(const_of(c.term[3]) is True, R, PFB, "init:%s" % body.local_name(c.term[1]), "trimming flag starts set",
+                          "the trimming flag %s starts as %s" % (body.local_name(c.term[1]), term_str(c.term[3])), fn_span(body), nontrivial=False)
+    ctx.check(len(flags) == 1, R, PFB, "flag-role", "one trimming flag", "trimming flag not identified: %s" % sorted(flags), fn_span(body))
+    if len(flags) != 1:
+        return
+    flag = next(iter(flags))
+    seen_rows = set()
+    for p in backs:
+        nl = None
+        ws = None
+        fl = None
+        for c in p.conds():
+            t = c.term
+            truth = c.fact == ("eq", True)
+            if isinstance(t, tuple) and t[0] == "binop" and t[1] in ("Eq", "Ne") and ((is_byte(t[2]) and const_int(t[3]) == 10) or (is_byte(t[3]) and const_int(t[2]) == 10)):
+                nl = truth if t[1] == "Eq" else not truth
+            elif is_byte(t) and c.fact[0] in ("eq", "ne"):
+                # match *ch { b'\n' => .. } : a switch on the byte itself
+                if c.fact == ("eq", 10):
+                    nl = True
+                elif c.fact[0] == "ne" and 10 in c.fact[1]:
+                    nl = False
+            elif isinstance(t, tuple) and t[0] == "havoc" and t[1] == flag:
+                fl = truth
+            elif is_call(t, "is_ascii_whitespace") and is_byte(call_args(t)[0]):
+                ws = truth
+        pushed = any(ev_is(e, "Vec::push") and e.bb == ibb for e in p.events)
+        row = (nl, fl, ws)
+        seen_rows.add(row)
+        inst = "newline=%s,trimming=%s,blank=%s" % row
+        sp_ = body.span_of(p.blocks[-2]) if len(p.blocks) > 1 else fn_span(body)
+        if nl is None:
+            ctx.violation(R, PFB, inst, "a scan-loop iteration does not test the current byte against '\\n'", sp_)
+            continue
+        if nl:
+            bad = [body.local_name(l) for l in sorted(aliases | cursor) if not idx_plus_1(p.env.get(l))]
+            ctx.check(not bad, R, PFB, inst + (":recorded" if pushed else ""), "line start, cursor := idx + 1", "after a newline %s is not reset to idx + 1 (%s)" % (
+                bad, [term_str(p.env.get(l)) for l in sorted(aliases | cursor) if not idx_plus_1(p.env.get(l))]), sp_)
+            ctx.check(const_of(p.env.get(flag)) is True, R, PFB, inst + (":recorded" if pushed else "") + ":flag", "trimming flag := true",
+                      "after a newline the trimming flag is %s" % term_str(p.env.get(flag)), sp_, nontrivial=False)
+            continue
+        # inside a line: the line start never moves, nothing is recorded
+        moved = [body.local_name(l) for l in sorted(aliases) if not unchanged(p, l)]
+        ctx.check(not moved and not pushed, R, PFB, inst + ":start", "line start unchanged, nothing recorded",
+                  "inside a line %s" % ("a range is recorded" if pushed else "%s is modified" % moved), sp_)
+        cv = p.env.get(cur)
+        bumped = isinstance(cv, tuple) and cv[0] == "binop" and cv[1] == "Add" and const_int(cv[3]) == 1 and ((isinstance(cv[2], tuple) and cv[2][0] == "havoc" and cv[2][1] == cur) or cv[2] == IDX)
+        if fl is True and ws is True:
+            ctx.check(bumped and unchanged(p, flag), R, PFB, inst + ":cursor", "cursor += 1, flag kept",
+                      "a leading blank byte does not advance the first-non-blank cursor by one (cursor = %s, flag = %s)" % (term_str(cv), term_str(p.env.get(flag))), sp_)
+        else:
+            ctx.check(unchanged(p, cur) and const_of(p.env.get(flag)) is False, R, PFB, inst + ":cursor", "cursor kept, flag := false",
+                      "a byte that is not a leading blank %s" % ("moves the cursor (%s)" % term_str(cv) if not unchanged(p, cur) else "leaves the trimming flag %s" % term_str(p.env.get(flag))), sp_)
+    need = {(False, True, True), (False, True, False), (False, False, None)}
+    ctx.check(need <= seen_rows and any(r[0] for r in seen_rows), R, PFB, "rows", "newline / leading blank / first non-blank / later byte all handled",
+              "scan loop rows %s do not cover newline, leading blank, first non-blank and later bytes" % sorted(seen_rows, key=str), fn_span(body), nontrivial=False)
 
 
 def bytews_sites(ctx, fn, rule="D4-BYTEWS"):
@@ -272,6 +397,8 @@ def run(ctx):
             ok_s = bool(common) and all(shapes[0][l] == shapes[1][l] for l in common)
             ctx.check(ok_s, "D3-SIBLING", PFB, "cursor-test", "both sites test the non-blank cursor alike",
                       "the in-loop and end-of-input sites test the non-blank cursor differently (%s vs %s)" % (shapes[0], shapes[1]), fn_span(body))
+        # D3 transfer table of the scan loop: the per-byte update of (line start, first-non-blank cursor, trimming flag)
+        scan_transfer(ctx, body, paths, guards)
         # D2 producer
         pushes = {}
         for p in paths:
